@@ -115,6 +115,9 @@ func runC20(c c20Case, dir string) *Violation {
 			pn++
 		}
 	}
+	if (c.Malformed == "method" || c.Malformed == "chunked") && pn > 2000 {
+		pn = 2000 // refused before the body is read: a client still writing a large body would only see a reset
+	}
 	payload := streamBytes(c.Seed, 0, pn)
 	msg := append(binary.BigEndian.AppendUint32(nil, uint32(len(payload))), payload...)
 	if pn < 4 && c.Seed%2 == 0 {
@@ -184,7 +187,7 @@ func runC20(c c20Case, dir string) *Violation {
 		}
 		return n
 	}
-	if c.Malformed == "" && len(body) > 131072 {
+	if c.Malformed != "method" && c.Malformed != "chunked" && len(body) > 131072 {
 		if resp.StatusCode != 413 || contacted() != 0 {
 			return viol("c20/over-limit", "a %d-byte request exceeds 128 KiB: want 413 and nothing forwarded, got %d (%s)", len(body), resp.StatusCode, desc)
 		}
